@@ -22,7 +22,8 @@ RULE = (
 ASSUMPTIONS = ["msdparser.parse_msd", "the syntactic gap guard is a superset of msdparser's escaping failures"]
 MONITORS = ["serialize_loaded", "reload_equal", "second_save_identical"]
 REQUIRED = ["key_only_loaded", "lower_case_key", "duplicate_key", "param_after_notes", "lenient_with_stray",
-            "chart_both_notes_and_notes2", "corpus_mutation", "sm_chart_loaded", "ssc_chart_loaded", "sm_backslash_without_other_meta"]
+            "chart_both_notes_and_notes2", "corpus_mutation", "sm_chart_loaded", "ssc_chart_loaded", "sm_backslash_without_other_meta",
+            "ssc_version_not_first", "key_only_multi_value_in_chart"]
 
 
 def anchors():
@@ -130,6 +131,7 @@ def check(ctx, case):
             observe(ctx, a, text, strict, case)
             cls = type(a)
             ctx.mon("serialize_loaded")
+            sa = state(a)  # as loaded, before any serialization
             try:
                 t1 = str(a)
             except Exception as e:
@@ -141,7 +143,10 @@ def check(ctx, case):
             except Exception as e:
                 ctx.violation(f"reload:raised:{type(e).__name__}", {"format": fmt, "strict": strict, "exc": repr(e), "saved": t1[:500]})
                 continue
-            sa, sb = state(a), state(b)
+            if state(a) != sa:
+                ctx.violation(f"save:serializing-modified-the-loaded-simfile:{cls.__name__}", {"format": fmt, "before": repr(sa)[:500], "after": repr(state(a))[:500]})
+                continue
+            sb = state(b)
             if sa != sb:
                 ctx.violation(f"reload:differs:{cls.__name__}", {"format": fmt, "strict": strict, "loaded": repr(sa)[:600], "reloaded": repr(sb)[:600], "text": text[:400]})
                 continue
@@ -176,6 +181,10 @@ def observe(ctx, a, text, strict, case):
                 ctx.feat("param_after_notes")
         if not strict and any(s[0] == "stray" for s in case["segments"]):
             ctx.feat("lenient_with_stray")
+    if type(a) is not SMSimfile and "VERSION" in a and next(iter(a)) != "VERSION":
+        ctx.feat("ssc_version_not_first")
+    if type(a) is not SMSimfile and any(k in ("ATTACKS", "DISPLAYBPM") and v in ("", None) for c in a.charts for k, v in c.items()):
+        ctx.feat("key_only_multi_value_in_chart")
     if a.charts:
         ctx.feat("sm_chart_loaded" if type(a) is SMSimfile else "ssc_chart_loaded")
     if type(a) is SMSimfile:
